@@ -19,11 +19,14 @@
 // template made of flag-shaped pieces yields exactly the list of flags; without a command it is one
 // argument.
 //
-// Fake pkg-config / llvm-config / c17-other: symlinks to this test binary, first on PATH; an init
-// function answers from a table keyed by the exact argv and logs every invocation.
+// Fake pkg-config / llvm-config / c17-other: one generated sh script under three names, first on
+// PATH; it answers from a table keyed by its exact argv and logs every invocation.  Process
+// creation dominates the cost of this monitor (35-200 ms per exec in the sandbox), so templates that
+// run commands have their own, smaller budget.
 //
-// Recorded class with probe: the output of $(...) is scanned for $VAR again
-// (env.go:73 runs os.Expand over the text that already contains the command output).
+// Recorded class with probes: the output of $(...) is scanned for $VAR again, and text next to a
+// substitution is glued to a preceding $NAME (env.go:52-73 runs os.Expand over the text that
+// already contains the command output).
 package env
 
 import (
@@ -33,31 +36,31 @@ import (
 	"os"
 	"path/filepath"
 	"reflect"
+	"runtime/debug"
 	"sort"
 	"strings"
 	"testing"
 )
 
-func init() {
-	base := filepath.Base(os.Args[0])
-	if base != "pkg-config" && base != "llvm-config" && base != "c17-other" {
-		return
+func c17xeShQuote(x string) string { return "'" + strings.ReplaceAll(x, "'", `'\''`) + "'" }
+
+// the fake command: logs its exact argv (US-separated) and prints the table entry selected by
+// "<name> <args joined by one blank>"
+func c17xeScript(table map[string]string) string {
+	var keys []string
+	for k := range table {
+		keys = append(keys, k)
 	}
-	dir := os.Getenv("C17_FAKE_DIR")
-	if f, err := os.OpenFile(filepath.Join(dir, "invocations.log"), os.O_APPEND|os.O_CREATE|os.O_WRONLY, 0o644); err == nil {
-		fmt.Fprintf(f, "%s\n", strings.Join(append([]string{base}, os.Args[1:]...), "\x1f"))
-		f.Close()
+	sort.Strings(keys)
+	var sb strings.Builder
+	sb.WriteString("#!/bin/sh\nn=\"${0##*/}\"\nk=\"$n\"; for a in \"$@\"; do k=\"$k $a\"; done\n")
+	sb.WriteString("{ printf '%s' \"$n\"; for a in \"$@\"; do printf '\\037%s' \"$a\"; done; printf '\\n'; } >> \"$C17_FAKE_DIR/invocations.log\"\n")
+	sb.WriteString("case \"$k\" in\n")
+	for _, k := range keys {
+		fmt.Fprintf(&sb, "%s) printf '%%s\\n' %s;;\n", c17xeShQuote(k), c17xeShQuote(table[k]))
 	}
-	var table map[string]string
-	b, _ := os.ReadFile(filepath.Join(dir, "table.json"))
-	json.Unmarshal(b, &table)
-	key := strings.Join(append([]string{base}, os.Args[1:]...), " ")
-	if out, ok := table[key]; ok {
-		fmt.Println(out)
-		os.Exit(0)
-	}
-	fmt.Println("C17-NO-SUCH-ENTRY[" + key + "]")
-	os.Exit(0)
+	sb.WriteString("*) printf '%s\\n' \"C17-NO-SUCH-ENTRY[$k]\";;\nesac\n")
+	return sb.String()
 }
 
 var c17xeAlpha = []string{" ", " ", "\t", "\"", "'", "\\", "-", "(", ")", "{", "}", "{}", "a", "b", "=", "/", ",", ";", "é", "世", "\U0001F600"}
@@ -88,23 +91,19 @@ func c17xeCase(v map[string]any) map[string]string {
 }
 
 func TestVerifC17XEnv(t *testing.T) {
-	rep := vNewReport("xtool/env.ExpandEnv/ExpandEnvToArgs: templates of 1-7 tokens: literals over {blank, quotes, \\, -, (, ), {, }, {}, =, /, comma, ;, ASCII, multi-byte runes}, $NAME and ${NAME} of 10 variables (values over the same alphabet plus $OTHER, ${OTHER}, $(pkg-config --libs p1), lone $; one empty, two unset), $(pkg-config --libs|--cflags <pkg>) and $(llvm-config --ldflags|--libdir) with varied inner blanks, $(c17-other x) (must not run), a lone $ before blank or /. Fake commands answer from a table keyed by their exact argv. Reference: one left-to-right substitution, compared modulo outer white space; every input evaluated twice. ExpandEnvToArgs: templates made of flag-shaped pieces (safesplit domain) -> exact flag list; command-free templates -> one argument. Command outputs containing $ only when the probe of that class passes")
+	rep := vNewReport("xtool/env.ExpandEnv/ExpandEnvToArgs: templates of 1-7 tokens: literals over {blank, quotes, \\, -, (, ), {, }, {}, =, /, comma, ;, ASCII, multi-byte runes}, $NAME and ${NAME} of 11 variables (values over the same alphabet plus $OTHER, ${OTHER}, $(pkg-config --libs p1), lone $; one empty) and 2 unset names, $(pkg-config --libs|--cflags <pkg>) and $(llvm-config --ldflags|--libdir) with varied inner blanks, $(c17-other ...) (must not run), a lone $ before blank, / or the end. Fake commands answer from a table keyed by their exact argv and log it. Reference: one left-to-right substitution, compared modulo outer white space; command-free inputs evaluated twice. ExpandEnvToArgs: templates made of flag-shaped pieces (safesplit domain) -> exact flag list; command-free templates -> one argument; empty expansion -> none. Command outputs containing $ (or glued to a preceding $NAME) only when the probes of that class pass")
 	defer rep.Write()
+	defer func() { // a panic of the code under test outside a guarded call is an observation, not a broken check
+		if p := recover(); p != nil {
+			rep.Fail("xenv:panic", "monitor", fmt.Sprintf("panic escaped the monitor: %v\n%s", p, debug.Stack()), nil)
+		}
+	}()
 
-	exe, err := os.Executable()
-	if err != nil {
-		t.Fatal(err)
-	}
 	dir, err := os.MkdirTemp(os.Getenv("VERIF_WORK"), "c17xe")
 	if err != nil {
 		t.Fatal(err)
 	}
 	defer os.RemoveAll(dir)
-	for _, n := range []string{"pkg-config", "llvm-config", "c17-other"} {
-		if err := os.Symlink(exe, filepath.Join(dir, n)); err != nil {
-			t.Fatal(err)
-		}
-	}
 	os.Setenv("PATH", dir+string(os.PathListSeparator)+os.Getenv("PATH"))
 	os.Setenv("C17_FAKE_DIR", dir)
 	r := rand.New(rand.NewSource(vSeed()*1000003 + 175))
@@ -141,19 +140,32 @@ func TestVerifC17XEnv(t *testing.T) {
 		"llvm-config --libdir":     "/llvm/lib",
 		"pkg-config --libs dollar": "-L/opt/$C17_PLAIN/lib -Wl,-rpath,$C17_R0",
 		"pkg-config --libs cmd":    "-L$(pkg-config --libs p1)",
+		"pkg-config --libs word":   "word",
 	}
-	tb, _ := json.Marshal(table)
-	os.WriteFile(filepath.Join(dir, "table.json"), tb, 0o644)
-	var cmdKeys, dollarKeys []string
+	for _, n := range []string{"pkg-config", "llvm-config", "c17-other"} {
+		if err := os.WriteFile(filepath.Join(dir, n), []byte(c17xeScript(table)), 0o755); err != nil {
+			t.Fatal(err)
+		}
+	}
+	var cmdKeys, gatedKeys []string
 	for k, v := range table {
-		if strings.Contains(v, "$") {
-			dollarKeys = append(dollarKeys, k)
+		if strings.Contains(v, "$") || k == "pkg-config --libs word" {
+			gatedKeys = append(gatedKeys, k)
 		} else {
 			cmdKeys = append(cmdKeys, k)
 		}
 	}
 	sort.Strings(cmdKeys)
-	sort.Strings(dollarKeys)
+	sort.Strings(gatedKeys)
+
+	invocations := func() []string {
+		b, _ := os.ReadFile(filepath.Join(dir, "invocations.log"))
+		os.Remove(filepath.Join(dir, "invocations.log"))
+		if len(b) == 0 {
+			return nil
+		}
+		return strings.Split(strings.TrimSuffix(string(b), "\n"), "\n")
+	}
 
 	// ---- fixed cases that hold on every tree
 	fixed := []struct{ tpl, want string }{
@@ -173,47 +185,51 @@ func TestVerifC17XEnv(t *testing.T) {
 				c17xeCase(map[string]any{"template": f.tpl, "env": vars, "table": table, "got": got, "want": f.want}))
 		}
 	}
+	wantFixedInv := []string{"pkg-config\x1f--libs\x1fp1", "pkg-config\x1f--libs\x1fp1\x1fp2", "llvm-config\x1f--libdir"}
+	if inv := invocations(); !reflect.DeepEqual(inv, wantFixedInv) {
+		rep.Fail("xenv:commands-run", "fixed", fmt.Sprintf("the fixed cases reference the commands %q, the log shows %q", wantFixedInv, inv), nil)
+	}
 
-	// ---- probe: command output is data, not a template
+	// ---- probes: command output is data, not a template
 	dollarOK := true
 	probes := []struct{ tpl, want string }{
 		{"$(pkg-config --libs dollar)", table["pkg-config --libs dollar"]},
 		{"-lx $(pkg-config --libs dollar)", "-lx " + table["pkg-config --libs dollar"]},
+		{"$C17_PLAIN$(c17-other x)b:$C17_PLAIN$(pkg-config --libs word)", "/opt/libb:/opt/libword"}, // not glued to a preceding $NAME
 	}
 	for i, p := range probes {
 		got := ExpandEnv(p.tpl)
 		rep.Eval(1)
 		if got != p.want {
 			dollarOK = false
-			rep.Fail("xenv:cmd-output-reexpanded", fmt.Sprintf("probe%d", i), fmt.Sprintf("ExpandEnv(%q) = %q; the command printed %q (C17_PLAIN=%q, C17_R0=%q were substituted into the command's output)", p.tpl, got, p.want, vars["C17_PLAIN"], vars["C17_R0"]),
+			rep.Fail("xenv:cmd-output-reexpanded", fmt.Sprintf("probe%d", i), fmt.Sprintf("ExpandEnv(%q) = %q; single-pass substitution gives %q (the fake pkg-config printed %q; C17_PLAIN=%q, C17_R0=%q)", p.tpl, got, p.want, table["pkg-config --libs dollar"], vars["C17_PLAIN"], vars["C17_R0"]),
 				c17xeCase(map[string]any{"template": p.tpl, "env": vars, "table": table, "got": got, "want": p.want}))
 		}
 	}
 	if dollarOK {
-		cmdKeys = append(cmdKeys, dollarKeys...)
+		cmdKeys = append(cmdKeys, gatedKeys...)
 		sort.Strings(cmdKeys)
 		rep.Extra["avoided_constructs"] = []string{}
 	} else {
-		rep.Extra["avoided_constructs"] = []string{"$(pkg-config ...) whose output contains '$' (probe fails: the output is expanded again)"}
-	}
-
-	invocations := func() []string {
-		b, _ := os.ReadFile(filepath.Join(dir, "invocations.log"))
-		os.Remove(filepath.Join(dir, "invocations.log"))
-		if len(b) == 0 {
-			return nil
-		}
-		return strings.Split(strings.TrimSuffix(string(b), "\n"), "\n")
+		rep.Extra["avoided_constructs"] = []string{"$(pkg-config ...) whose output contains '$', and substitutions directly after $NAME whose text starts with a name character (probes fail: the text is expanded again after command substitution)"}
 	}
 	invocations()
 
 	// ---- random templates through ExpandEnv
-	total := vN(3000, 60000)
-	for i := 0; i < total; i++ {
+	nFree, nCmd := vN(12000, 400000), vN(60, 2000)
+	for i := 0; i < nFree+nCmd; i++ {
+		withCmd := i >= nFree
 		nt := 1 + r.Intn(7)
 		var toks []c17xeTok
 		for j := 0; j < nt; j++ {
-			switch k := r.Intn(10); {
+			k := r.Intn(10)
+			if !withCmd && (k == 6 || k == 7) {
+				k = r.Intn(6)
+			}
+			if withCmd && j == 0 {
+				k = 6
+			}
+			switch {
 			case k < 3:
 				toks = append(toks, c17xeTok{kind: "lit", text: c17xeLit(r, 4)})
 			case k < 6:
@@ -239,15 +255,29 @@ func TestVerifC17XEnv(t *testing.T) {
 				toks = append(toks, c17xeTok{kind: "dollar"})
 			}
 		}
+		if withCmd {
+			r.Shuffle(len(toks), func(a, b int) { toks[a], toks[b] = toks[b], toks[a] })
+		}
 		var tpl, ref, sig strings.Builder
 		var wantInv []string
 		for j, tk := range toks {
+			// first byte of the text that will follow this token in the result; while the
+			// re-expansion probes fail, substitutions are looked through (their output is glued
+			// to a preceding $NAME by the second scan - same recorded class)
 			next := byte(0)
-			// first byte of the following token as it will be written
-			if j+1 < len(toks) {
-				switch toks[j+1].kind {
+			for q := j + 1; q < len(toks) && next == 0; q++ {
+				switch toks[q].kind {
 				case "lit":
-					next = toks[j+1].text[0]
+					next = toks[q].text[0]
+				case "other":
+					if dollarOK {
+						next = '$'
+					}
+				case "cmd":
+					next = '$'
+					if !dollarOK {
+						next = table[toks[q].name][0]
+					}
 				default:
 					next = '$'
 				}
@@ -289,11 +319,22 @@ func TestVerifC17XEnv(t *testing.T) {
 		template := tpl.String()
 		want := strings.TrimSpace(ref.String())
 		rep.Sig(sig.String())
-		for k := 0; k < 2; k++ {
+		reps := 2
+		if withCmd {
+			reps = 1
+			rep.Count("templates_running_commands", 1)
+		}
+		for k := 0; k < reps; k++ {
 			got := ExpandEnv(template)
 			rep.Eval(1)
-			inv := invocations()
-			if i == 4 && k == 0 {
+			// the invocation log is read after every command-bearing template and after every
+			// 256th command-free one (a command-free template must not start any process)
+			readLog := withCmd || i%256 == 255 || i == nFree-1 || i == 4
+			var inv []string
+			if readLog {
+				inv = invocations()
+			}
+			if (i == 4 || i == nFree+2) && k == 0 {
 				rep.Sample(map[string]any{"template": template, "expanded": got, "commands_run": inv})
 			}
 			if got != want {
@@ -301,14 +342,14 @@ func TestVerifC17XEnv(t *testing.T) {
 					c17xeCase(map[string]any{"template": template, "env": vars, "table": table, "got": got, "want": want, "commands_run": inv}))
 				break
 			}
-			if !reflect.DeepEqual(inv, wantInv) && !(len(inv) == 0 && len(wantInv) == 0) {
+			if readLog && !reflect.DeepEqual(inv, wantInv) && !(len(inv) == 0 && len(wantInv) == 0) {
 				cls := "xenv:commands-run"
 				for _, l := range inv {
 					if strings.HasPrefix(l, "c17-other") {
 						cls = "xenv:foreign-command-run"
 					}
 				}
-				rep.Fail(cls, "ExpandEnv", fmt.Sprintf("ExpandEnv(%q) ran %q, the template references %q", template, inv, wantInv),
+				rep.Fail(cls, "ExpandEnv", fmt.Sprintf("ExpandEnv(%q) (or a command-free template before it) ran %q, the template references %q", template, inv, wantInv),
 					c17xeCase(map[string]any{"template": template, "env": vars, "table": table, "commands_run": inv, "want_commands": wantInv}))
 				break
 			}
@@ -317,12 +358,6 @@ func TestVerifC17XEnv(t *testing.T) {
 
 	// ---- ExpandEnvToArgs on flag-shaped templates
 	flagVars := []string{"C17_PLAIN", "C17_EMPTY", "C17_REF", "C17_BRACE", "C17_UNSET"}
-	var flagCmds []string
-	for _, k := range cmdKeys {
-		if k != "llvm-config --libdir" && k != "pkg-config --libs cmd" {
-			flagCmds = append(flagCmds, k)
-		}
-	}
 	wantArgsOf := map[string][]string{
 		"pkg-config --libs p1":     {"-L/p1/lib", "-lp1"},
 		"pkg-config --cflags p1":   {"-I/p1/include", "-DP1=1"},
@@ -334,15 +369,30 @@ func TestVerifC17XEnv(t *testing.T) {
 		"llvm-config --ldflags":    {"-L/llvm/lib"},
 		"pkg-config --libs dollar": {"-L/opt/$C17_PLAIN/lib", "-Wl,-rpath,$C17_R0"},
 	}
-	nargs := vN(1500, 30000)
-	for i := 0; i < nargs; i++ {
+	var flagCmds []string
+	for _, k := range cmdKeys {
+		if _, ok := wantArgsOf[k]; ok {
+			flagCmds = append(flagCmds, k)
+		}
+	}
+	nargsFree, nargsCmd := vN(3000, 100000), vN(25, 700)
+	for i := 0; i < nargsFree+nargsCmd; i++ {
+		withCmd := i >= nargsFree
 		np := 1 + r.Intn(4)
+		cmdAt := -1
+		if withCmd {
+			cmdAt = r.Intn(np)
+		}
 		var parts []string
 		var want []string
 		hasCmd := false
 		var sig strings.Builder
 		for j := 0; j < np; j++ {
-			switch r.Intn(3) {
+			k := r.Intn(2)
+			if withCmd && (j == cmdAt || r.Intn(4) == 0) {
+				k = 2
+			}
+			switch k {
 			case 0:
 				fl := "-" + string("lLID"[r.Intn(4)]) + []string{"foo", "/usr/lib", "é世", "a=b", "x,y"}[r.Intn(5)]
 				parts = append(parts, fl)
@@ -371,8 +421,14 @@ func TestVerifC17XEnv(t *testing.T) {
 		rep.Sig("args:" + sig.String())
 		got := ExpandEnvToArgs(template)
 		rep.Eval(1)
-		invocations()
-		if i == 3 {
+		if hasCmd {
+			invocations()
+		} else if i%256 == 255 {
+			if inv := invocations(); len(inv) > 0 {
+				rep.Fail("xenv:commands-run", "ExpandEnvToArgs", fmt.Sprintf("command-free templates started processes: %q", inv), nil)
+			}
+		}
+		if i == nargsFree+1 {
 			rep.Sample(map[string]any{"template": template, "args": got})
 		}
 		if !reflect.DeepEqual(got, want) {
@@ -388,5 +444,7 @@ func TestVerifC17XEnv(t *testing.T) {
 			rep.Fail("xenv:to-args", "empty", fmt.Sprintf("ExpandEnvToArgs(%q) = %q, want no arguments", tpl, got), nil)
 		}
 	}
-	invocations()
+	if inv := invocations(); len(inv) > 0 {
+		rep.Fail("xenv:foreign-command-run", "empty", fmt.Sprintf("templates without a supported command started %q", inv), nil)
+	}
 }
